@@ -46,7 +46,7 @@ struct Built {
 }
 
 fn build_table(gnu: bool, enc: Enc, u: &[Vec<u8>], subset: u64, symoffset: usize, nbucket: usize, bloom: usize, shift: u32) -> Built {
-    let members: Vec<Vec<u8>> = u.iter().enumerate().filter(|(i, _)| subset >> i & 1 == 1).map(|(_, n)| n.clone()).collect();
+    let members: Vec<Vec<u8>> = u.iter().enumerate().filter(|(i, _)| *i >= 64 || subset >> i & 1 == 1).map(|(_, n)| n.clone()).collect();
     if gnu {
         // unhashed prefix: null symbol + (symoffset-1) symbols that reuse names of the universe
         let mut unhashed: Vec<Vec<u8>> = vec![vec![]];
@@ -102,24 +102,26 @@ pub struct Complete {
     pub gnu: bool,
     pub usize_: usize,
     pub shifts: Vec<u32>,
+    pub nbuckets: usize,
+    pub blooms: Vec<usize>,
 }
 impl Complete {
     fn dims(&self) -> [u64; 6] {
         // subset, enc, nbucket, symoffset, bloom, shift
         if self.gnu {
-            [1 << self.usize_, 4, 4, 3, 3, self.shifts.len() as u64]
+            [1 << self.usize_, 4, self.nbuckets as u64, 3, self.blooms.len() as u64, self.shifts.len() as u64]
         } else {
-            [1 << self.usize_, 4, 4, 1, 1, 1]
+            [1 << self.usize_, 4, self.nbuckets as u64, 1, 1, 1]
         }
     }
 }
-const BLOOMS: [usize; 3] = [1, 2, 4];
+
 impl Space for Complete {
     fn name(&self) -> String {
         if self.gnu {
-            format!("GnuHashTable::find on reference-built .gnu.hash: all {} subsets of a {}-name universe (djb2 collision pair, bit-0 neighbours, empty, non-UTF-8, prefixes) x symoffset 1..3 (unhashed prefix reuses names) x nbucket 1..4 x bloom words {{1,2,4}} x shift {:?} x 4 encodings; every universe name and 8 absent names looked up", 1u64 << self.usize_, self.usize_, self.shifts)
+            format!("GnuHashTable::find on reference-built .gnu.hash: all {} subsets of a {}-name universe (djb2 collision pair, bit-0 neighbours, empty, non-UTF-8, prefixes) x symoffset 1..3 (unhashed prefix reuses names) x nbucket 1..={} x bloom words {:?} x shift {:?} x 4 encodings; every universe name and 8 absent names looked up", 1u64 << self.usize_, self.usize_, self.nbuckets, self.blooms, self.shifts)
         } else {
-            format!("SysVHashTable::find on reference-built .hash: all {} subsets of a {}-name universe (elf_hash collision pair, >= 0x80 bytes, prefixes, long name) x nbucket 1..4 x 4 encodings; every universe name and 8 absent names looked up", 1u64 << self.usize_, self.usize_)
+            format!("SysVHashTable::find on reference-built .hash: all {} subsets of a {}-name universe (elf_hash collision pair, >= 0x80 bytes, prefixes, long name) x nbucket 1..={} x 4 encodings; every universe name and 8 absent names looked up", 1u64 << self.usize_, self.usize_, self.nbuckets)
         }
     }
     fn size(&self) -> u64 {
@@ -127,13 +129,13 @@ impl Space for Complete {
     }
     fn describe(&self, idx: u64) -> Value {
         let d = unmix(idx, &self.dims());
-        json!({"subset_mask": format!("{:#b}", d[0]), "encoding": ENCS[d[1] as usize].name(), "nbucket": d[2] + 1, "symoffset": d[3] + 1, "bloom_words": BLOOMS[d[4] as usize], "shift": self.shifts.get(d[5] as usize)})
+        json!({"subset_mask": format!("{:#b}", d[0]), "encoding": ENCS[d[1] as usize].name(), "nbucket": d[2] + 1, "symoffset": d[3] + 1, "bloom_words": self.blooms.get(d[4] as usize), "shift": self.shifts.get(d[5] as usize)})
     }
     fn run(&self, idx: u64, out: &mut Outcome) {
         let d = unmix(idx, &self.dims());
         let enc = ENCS[d[1] as usize];
         let u = universe(self.gnu, self.usize_);
-        let b = build_table(self.gnu, enc, &u, d[0], d[3] as usize + 1, d[2] as usize + 1, BLOOMS[d[4] as usize], *self.shifts.get(d[5] as usize).unwrap_or(&0));
+        let b = build_table(self.gnu, enc, &u, d[0], d[3] as usize + 1, d[2] as usize + 1, *self.blooms.get(d[4] as usize).unwrap_or(&1), *self.shifts.get(d[5] as usize).unwrap_or(&0));
         let who = if self.gnu { "GnuHashTable::find" } else { "SysVHashTable::find" };
         let mut dig = Fnv::new();
         let mut found = 0;
@@ -316,6 +318,81 @@ impl Space for HashFn {
     }
 }
 
+/// Large well-formed tables: 300 generated names (with duplicates, empty, >= 0x80 bytes), several
+/// bucket counts; every name and a set of absent names is looked up.
+pub struct BigTables {
+    pub gnu: bool,
+}
+fn big_names() -> Vec<Vec<u8>> {
+    let mut v: Vec<Vec<u8>> = Vec::new();
+    for i in 0..300u32 {
+        let mut n = format!("sym_{:x}_{}", i.wrapping_mul(2654435761), i % 7).into_bytes();
+        if i % 50 == 3 {
+            n = b"dup".to_vec();
+        }
+        if i % 97 == 5 {
+            n.push(0x80 + (i % 100) as u8);
+        }
+        if i == 123 {
+            n = Vec::new();
+        }
+        v.push(n);
+    }
+    v
+}
+impl Space for BigTables {
+    fn name(&self) -> String {
+        format!("{} with 300 names (duplicates, empty, >= 0x80 bytes): nbucket in {{1,7,64,300}} x bloom words {{1,16,64}} x symoffset {{1,17}} x 4 encodings; 300 present + 40 absent lookups each", if self.gnu { ".gnu.hash" } else { ".hash" })
+    }
+    fn size(&self) -> u64 {
+        4 * 4 * 3 * 2
+    }
+    fn describe(&self, idx: u64) -> Value {
+        let d = unmix(idx, &[4, 4, 3, 2]);
+        let (nb, bw, so) = ([1, 7, 64, 300][d[1] as usize], [1, 16, 64][d[2] as usize], [1, 17][d[3] as usize]);
+        json!({"encoding": ENCS[d[0] as usize].name(), "nbucket": nb, "bloom_words": bw, "symoffset": so})
+    }
+    fn run(&self, idx: u64, out: &mut Outcome) {
+        let d = unmix(idx, &[4, 4, 3, 2]);
+        let enc = ENCS[d[0] as usize];
+        let nbucket = [1usize, 7, 64, 300][d[1] as usize];
+        let bloom = [1usize, 16, 64][d[2] as usize];
+        let so = [1usize, 17][d[3] as usize];
+        if !self.gnu && (d[2] != 0 || d[3] != 0) {
+            out.count("parameter_irrelevant_for_sysv");
+            return;
+        }
+        let u = big_names();
+        let b = build_table(self.gnu, enc, &u, u64::MAX, so, nbucket, bloom, 6);
+        let who = if self.gnu { "GnuHashTable::find" } else { "SysVHashTable::find" };
+        let mut qs = u.clone();
+        for i in 0..40u32 {
+            qs.push(format!("absent_{}", i).into_bytes());
+        }
+        let mut dig = Fnv::new();
+        for q in qs {
+            out.transitions += 1;
+            let want = b.names.iter().enumerate().skip(b.first_hashed).find(|(_, n)| **n == q).map(|(i, _)| i);
+            match crate_find(self.gnu, enc, &b.sect, &b.symtab, &b.strtab, &q) {
+                Err(m) => out.violate(format!("panic:{who} in {}", panic_site(&m)), m),
+                Ok(Some(Ok(got))) => {
+                    let gi = got.map(|x| x.0);
+                    if gi != want || got.map(|x| !x.1).unwrap_or(false) {
+                        out.violate(format!("big-table:{who}"), format!("{} nbucket {nbucket} query {:?}: got {:?}, ground truth {:?}", enc.name(), String::from_utf8_lossy(&q), gi, want));
+                        return;
+                    }
+                    dig.u64(gi.unwrap_or(0) as u64);
+                }
+                _ => {
+                    out.violate(format!("error-on-well-formed-table:{who}"), format!("{} nbucket {nbucket} query {:?}", enc.name(), String::from_utf8_lossy(&q)));
+                    return;
+                }
+            }
+        }
+        out.nontrivial(dig.get() ^ idx);
+    }
+}
+
 /// Linker-made tables: soundness and agreement with the reference lookup algorithm.
 pub struct Samples {
     pub gnu: bool,
@@ -401,15 +478,16 @@ pub fn build_c11(tier: Tier) -> CheckDef {
         rule: "small-scope exhaustive enumeration of well-formed .gnu.hash tables produced by a reference builder (every subset of the name universe x every parameter combination) with linear-scan ground truth for every looked-up name; soundness on every single-word deviation and (in C01/C16) on all short word strings; gnu_hash against the djb2 reference on complete string sets. non-trivial = table in which at least one lookup hits".into(),
         assumptions: vec!["completeness is demanded only of builder-made tables (linker-made tables legitimately omit symbols); samples get soundness + agreement with the reference algorithm".into()],
         spaces: vec![
-            Box::new(Complete { gnu: true, usize_: tier.pick(6, 10), shifts }),
+            Box::new(Complete { gnu: true, usize_: tier.pick(7, 10), shifts, nbuckets: tier.pick(4, 6), blooms: if tier == Tier::Quick { vec![1, 2, 4] } else { vec![1, 2, 4, 8, 64] } }),
             Box::new(Deviated { gnu: true }),
             Box::new(HashFn { gnu: true, long: tier == Tier::Thorough }),
             Box::new(Samples { gnu: true }),
+            Box::new(BigTables { gnu: true }),
         ],
         abort_is_violation: false,
         hang_is_violation: true,
         exhaustive: true,
-        bounds: json!({"universe": tier.pick(6, 10), "nbucket": "1..4", "bloom_words": [1, 2, 4], "symoffset": "1..3", "shifts": tier.pick("0,5,6,31", "0..31")}),
+        bounds: json!({"universe": tier.pick(7, 10), "nbucket": tier.pick("1..4", "1..6"), "bloom_words": tier.pick("1,2,4", "1,2,4,8,64"), "symoffset": "1..3", "shifts": tier.pick("0,5,6,31", "0..31")}),
     }
 }
 
@@ -420,14 +498,15 @@ pub fn build_c12(tier: Tier) -> CheckDef {
         rule: "small-scope exhaustive enumeration of well-formed .hash tables produced by a reference builder (every subset of the name universe x nbucket x encoding) with linear-scan ground truth for every looked-up name; soundness on every single-word deviation and (in C01/C16) on all short word strings / all functional chain graphs; sysv_hash against the gABI elf_hash reference on complete string sets. non-trivial = table in which at least one lookup hits".into(),
         assumptions: vec!["completeness is demanded only of builder-made tables; samples get soundness + agreement with the reference algorithm".into()],
         spaces: vec![
-            Box::new(Complete { gnu: false, usize_: tier.pick(8, 10), shifts: vec![0] }),
+            Box::new(Complete { gnu: false, usize_: tier.pick(9, 10), shifts: vec![0], nbuckets: tier.pick(4, 8), blooms: vec![1] }),
             Box::new(Deviated { gnu: false }),
             Box::new(HashFn { gnu: false, long: tier == Tier::Thorough }),
             Box::new(Samples { gnu: false }),
+            Box::new(BigTables { gnu: false }),
         ],
         abort_is_violation: false,
         hang_is_violation: true,
         exhaustive: true,
-        bounds: json!({"universe": tier.pick(8, 10), "nbucket": "1..4"}),
+        bounds: json!({"universe": tier.pick(9, 10), "nbucket": tier.pick("1..4", "1..8")}),
     }
 }
